@@ -8,6 +8,7 @@ import (
 	"github.com/brocaar/lorawan"
 	"github.com/brocaar/lorawan/backend"
 
+	"verif/sim"
 	"verif/simrt"
 	"verif/spec"
 )
@@ -39,6 +40,17 @@ func openEnvelope(w *world, name string, env *backend.KeyEnvelope, wantLabel str
 			return nil, fmt.Sprintf("%s envelope does not unwrap with the configured KEK: %v", name, err)
 		}
 		simrt.Count(cWrapped)
+		// the network server's half: the same envelope opened with the
+		// library's own KeyEnvelope.Unwrap yields the same key
+		if len(k) == 16 {
+			var lk lorawan.AES128Key
+			var lerr error
+			if !sim.Guard("panic", func() { lk, lerr = env.Unwrap(wantKEK) }) {
+				if lerr != nil || !bytes.Equal(lk[:], k) {
+					simrt.Report("joinkeys:lib-unwrap", fmt.Sprintf("%s envelope %x: KeyEnvelope.Unwrap gives %x (err %v), RFC 3394 unwrap gives %x", name, []byte(env.AESKey), lk[:], lerr, k))
+				}
+			}
+		}
 		return k, ""
 	}
 	if env.KEKLabel != "" {
